@@ -64,6 +64,11 @@ pub enum Backoff {
     Fractional,
     /// 1.25 s x 2^k: whole seconds plus a sub-second part
     Seconds,
+    /// 10 ms x 3^k capped at 1 s, the cap set AFTER the multiplier (builder setters that
+    /// rebuild the policy must carry the other setting over)
+    MultThenCap,
+    /// the same with the cap set BEFORE the multiplier
+    CapThenMult,
 }
 
 impl Backoff {
@@ -80,6 +85,7 @@ impl Backoff {
             Backoff::Fixed => 10,
             Backoff::Exponential => 10 * 2u64.pow(a),
             Backoff::Capped => (10 * 2u64.pow(a)).min(25),
+            Backoff::MultThenCap | Backoff::CapThenMult => (10 * 3u64.pow(a)).min(1000),
             Backoff::Fn => (a as u64 + 1) * 7,
         }
     }
@@ -143,6 +149,8 @@ pub fn build(cfg: &Cfg, shared: trv_core::inner::Shared) -> (Svc, Option<Arc<Rec
         Backoff::SubMs => b.fixed_backoff(Duration::from_micros(900)),
         Backoff::Seconds => b.exponential_backoff(Duration::from_millis(1250)),
         Backoff::Fractional => b.backoff(ExponentialBackoff::new(Duration::from_micros(2750)).multiplier(1.5)),
+        Backoff::MultThenCap => b.backoff(ExponentialBackoff::new(Duration::from_millis(10)).multiplier(3.0).max_interval(Duration::from_secs(1))),
+        Backoff::CapThenMult => b.backoff(ExponentialBackoff::new(Duration::from_millis(10)).max_interval(Duration::from_secs(1)).multiplier(3.0)),
     };
     if cfg.predicate {
         b = b.retry_on(|e: &InnerErr| e.kind == 0);
@@ -165,7 +173,7 @@ pub fn build(cfg: &Cfg, shared: trv_core::inner::Shared) -> (Svc, Option<Arc<Rec
         b = b.budget(r);
     }
     let layer = b.build();
-    (layer.layer(GatedInner::new(shared)), rec)
+    (layer.clone().layer(GatedInner::new(shared)), rec)
 }
 
 fn outs_of(script: &[u8]) -> Vec<Out> {
@@ -229,7 +237,7 @@ pub fn grid(tier: Tier) -> Vec<Cfg> {
     let mut v = vec![];
     for max_attempts in 0..=tier.pick(3usize, 4) {
         for per_request in [false, true] {
-            for backoff in [Backoff::Zero, Backoff::Fixed, Backoff::Exponential, Backoff::Capped, Backoff::Fn, Backoff::SubMs, Backoff::Fractional, Backoff::Seconds] {
+            for backoff in [Backoff::Zero, Backoff::Fixed, Backoff::Exponential, Backoff::Capped, Backoff::Fn, Backoff::SubMs, Backoff::Fractional, Backoff::Seconds, Backoff::MultThenCap, Backoff::CapThenMult] {
                 for predicate in [false, true] {
                     for budget in [BudgetKind::None, BudgetKind::Token(0), BudgetKind::Token(1), BudgetKind::Token(2), BudgetKind::Aimd, BudgetKind::AimdCost3] {
                         v.push(Cfg { max_attempts, per_request, backoff, predicate, budget });
